@@ -61,6 +61,7 @@ structure ASrc where
   synthSeen : Bool := false              -- its before_sleep produced a synthetic event in the current dispatch
   bheSeen : Nat := 0
   lifeDue : Bool := false                -- lifecycle hooks expected in the current dispatch
+  lifeOff : Bool := false                -- certainly not in the lifecycle set in the current dispatch (no hooks, or not enabled)
   lastRet : Option Ret := none           -- what the user's callback returned last (in the current event processing)
   deriving Repr
 
@@ -337,6 +338,7 @@ def onObs (t : T) (x : Obs) : T :=
     let srcs := t.srcs.map fun (k, a) =>
       (k, { a with touched := false, armedInDisp := false, cbThisDispatch := 0, bsSeen := 0, synthSeen := false, bheSeen := 0,
                    lifeDue := a.life && a.status == .enabled && !a.unknown,
+                   lifeOff := !a.life || a.status != .enabled,
                    dueAtBegin := a.status == .enabled && !a.unknown && pendingCause t k a })
     -- documented: a changed parameter takes effect through `update`; dispatching in between is not judged
     let t := if t.srcs.any (fun (p : Nat × ASrc) => p.2.dirty && p.2.status == .enabled) then { t with wf := false } else t
@@ -458,7 +460,7 @@ def onObs (t : T) (x : Obs) : T :=
     match t.src k with
     | none => t
     | some a =>
-      let t := t.flagIf (!a.lifeDue && !a.unknown) .C14 s!"before_sleep called on source {k} which is not an inserted, enabled lifecycle source"
+      let t := t.flagIf (!a.lifeDue && (!a.unknown || a.lifeOff)) .C14 s!"before_sleep called on source {k} which is not an inserted, enabled lifecycle source"
       let t := t.flagIf (a.bsSeen ≥ 1) .C14 s!"before_sleep called twice on source {k} in one dispatch"
       let t := t.flagIf t.sawPe .C14 s!"before_sleep of source {k} after event processing began"
       let t := t.modSrc k fun a => { a with bsSeen := a.bsSeen + 1, synthSeen := a.synthSeen || (match b with | .synth _ => true | _ => false) }
@@ -467,7 +469,7 @@ def onObs (t : T) (x : Obs) : T :=
     match t.src k with
     | none => t
     | some a =>
-      let t := t.flagIf (!a.lifeDue && !a.unknown) .C14 s!"before_handle_events called on source {k} which is not an inserted, enabled lifecycle source"
+      let t := t.flagIf (!a.lifeDue && (!a.unknown || a.lifeOff)) .C14 s!"before_handle_events called on source {k} which is not an inserted, enabled lifecycle source"
       let t := t.flagIf (a.bheSeen ≥ 1) .C14 s!"before_handle_events called twice on source {k} in one dispatch"
       let t := t.flagIf (a.bsSeen != 1 && !a.unknown) .C14 s!"before_handle_events of source {k} without its before_sleep"
       let t := t.flagIf t.sawPe .C14 s!"before_handle_events of source {k} after event processing began"
